@@ -6,6 +6,8 @@ harness problem (reported as such, exit 2), never a verdict.  Phase 1 does not s
 records the first case of every failure bucket.  Phase 2 re-runs the same seeded generation once per bucket
 (at most MAX_BUCKETS) raising only for that bucket, so Hypothesis shrinks each root cause to a minimal case.
 """
+import os
+import time
 import traceback
 
 import hypothesis
@@ -14,6 +16,9 @@ from hypothesis import HealthCheck, Phase, given, settings
 from vlib.runner import HarnessError, ShardResult, Violation
 
 MAX_BUCKETS = 3
+# shrinking is best effort: after this many seconds per shard the smallest failing case found so far is reported as it is
+# (the verdict never depends on the clock, only how small the reported reproduction is)
+SHRINK_BUDGET_S = float(os.environ.get("VERIF_SHRINK_BUDGET", "90"))
 
 
 def _settings(n, phases):
@@ -44,15 +49,18 @@ def search(res, strategy, body, seed, n, shrink=True):
     except (hypothesis.errors.Flaky, hypothesis.errors.FlakyFailure) as e:  # pragma: no cover
         raise HarnessError("flaky harness: %s" % e)
 
+    t_end = time.monotonic() + SHRINK_BUDGET_S
     for bucket, (case0, msg0) in list(buckets.items())[:MAX_BUCKETS]:
         best = {"case": case0, "msg": msg0}
-        if shrink:
+        if shrink and time.monotonic() < t_end:
             null = ShardResult()
 
             @hypothesis.seed(seed)
             @_settings(n, [Phase.generate, Phase.shrink])
             @given(strategy)
             def hunt(case):
+                if time.monotonic() > t_end:
+                    return
                 try:
                     body(case, null)
                 except Violation as v:
@@ -65,7 +73,8 @@ def search(res, strategy, body, seed, n, shrink=True):
             except Violation:
                 pass
             except (hypothesis.errors.Flaky, hypothesis.errors.FlakyFailure):
-                best = {"case": case0, "msg": msg0 + " [not shrunk: flaky under re-execution]"}
+                if time.monotonic() <= t_end:
+                    best = {"case": case0, "msg": msg0 + " [not shrunk: flaky under re-execution]"}
             except Exception:  # shrinking is best effort; keep the unshrunk case
                 best = {"case": case0, "msg": msg0 + " [not shrunk: %s]" % traceback.format_exc(limit=1)}
         res.add_violation(best["case"], best["msg"], bucket)
